@@ -103,10 +103,11 @@ PROPS = {
         assumptions=["restore_annotated_public_key is the documented inverse of a hand-out", "JSON text layer is CPython's; the hex layer is modelled",
                      "atomicity with respect to process crashes (rename is atomic, writes append); OS crashes are not modelled"]),
     "C19": dict(
-        lean_core=["Props.GenTie.Params", "Props.C19"], lean_code=["Props.GenTie.Heights", "Props.GenTie.PeerBookRule"],
-        gen_funcs=["is_time_to_connect", "get_recent_block_heights", "peer_connected_effects", "peer_disconnected_effects"], harness="c19",
+        lean_core=["Props.GenTie.Params", "Props.C19"], lean_code=["Props.GenTie.Heights", "Props.GenTie.PeerBookRule", "Props.GenTie.HelloRule"],
+        gen_funcs=["is_time_to_connect", "get_recent_block_heights", "peer_connected_effects", "peer_disconnected_effects", "hello_effects"], harness="c19",
         code_deps={"Props.GenTie.Heights": ["is_time_to_connect", "get_recent_block_heights"],
-                   "Props.GenTie.PeerBookRule": ["peer_connected_effects", "peer_disconnected_effects"]},
+                   "Props.GenTie.PeerBookRule": ["peer_connected_effects", "peer_disconnected_effects"],
+                   "Props.GenTie.HelloRule": ["hello_effects"]},
         assumptions=["the platform selector limit (512 sockets) is not reached", "rename is atomic with respect to process crashes"]),
     "C08": dict(
         lean_core=["Props.C08"], lean_code=[], gen_funcs=[], harness="c08",
